@@ -1,6 +1,6 @@
 (* Array::data_range and Array::is_aliased_ (and FixedArray's) as tools/gen_alias.py reads them from the source on
    every run, re-assembled and proved to be the model's [data_range] and the leaf case of [is_aliased] (Assign.v). *)
-From Coq Require Import ZArith List Bool Lia.
+From Coq Require Import ZArith List Bool Lia ZifyBool.
 From Adept Require Import View Assign AssignProofs.
 From AdeptGen Require Import Gen_Alias.
 Import ListNotations.
@@ -17,11 +17,22 @@ Definition gen_data_range (v : view) : Z * Z := gen_range_go (dims v) (strides v
 Definition gen_leaf_aliased (v : pview) (p : nat) (mem1 mem2 : Z) : bool :=
   Nat.eqb (par v) p && (let '(b, t) := gen_data_range (vw v) in al_test b t mem1 mem2).
 
+(* proved from what the two branches compute, not from their syntax: a sign test that differs from the model's only
+   where both branches add the same amount (stride 0) still passes *)
+Lemma gen_range_step_eq : forall d s lo hi,
+  (if dr_up d s then (lo, dr_up_hi hi d s) else (dr_down_lo lo d s, hi)) =
+  (if 0 <=? s then (lo, hi + (d - 1) * s) else (lo + (d - 1) * s, hi)).
+Proof.
+  intros d s lo hi. unfold dr_up_hi, dr_down_lo.
+  destruct (dr_up d s) eqn:E1; destruct (Z.leb_spec 0 s) as [H|H]; try reflexivity; unfold dr_up in E1;
+    assert (Hs : s = 0) by lia; subst s; rewrite !Z.mul_0_r, !Z.add_0_r; reflexivity.
+Qed.
 Lemma gen_range_go_eq : forall ds ss lo hi, gen_range_go ds ss lo hi = range_go ds ss lo hi.
 Proof.
   induction ds as [|d ds IH]; intros ss lo hi; [reflexivity|].
-  destruct ss as [|s ss]; [reflexivity|]. cbn [gen_range_go range_go]. unfold dr_up, dr_up_hi, dr_down_lo.
-  destruct (Z.geb_spec s 0) as [H|H]; destruct (Z.leb_spec 0 s) as [H'|H']; try lia; apply IH.
+  destruct ss as [|s ss]; [reflexivity|]. cbn [gen_range_go range_go].
+  pose proof (gen_range_step_eq d s lo hi) as H.
+  destruct (dr_up d s); destruct (0 <=? s); inversion H; rewrite IH; congruence.
 Qed.
 Lemma gen_data_range_eq : forall v, gen_data_range v = data_range v.
 Proof. intros v. unfold gen_data_range, data_range, dr_begin0, dr_end0. apply gen_range_go_eq. Qed.
